@@ -401,3 +401,18 @@ Proof.
   destruct (forallb (N.eqb calls) y) eqn:F; [|reflexivity]. rewrite forallb_forall in F. specialize (F 1 Hy).
   apply N.eqb_eq in F. contradiction.
 Qed.
+
+(* ------------------------------------------------------------------------------------------ *)
+(** * 6. The gzip layer of a pprof body *)
+
+Lemma pprof_guard_bounded : forall limit wire layers, (0 <= limit)%Z ->
+  (snd (pprof_guard limit wire layers) <= limit)%Z /\
+  match fst (pprof_guard limit wire layers) with PpParsed n => (n <= Z.max wire limit)%Z | PpRefused => True end.
+Proof.
+  intros limit wire [|n rest] Hl; cbn [pprof_guard fst snd]; [split; lia|].
+  destruct (limit <? n)%Z eqn:E; cbn [fst snd]; [split; [lia|exact I]|]. apply Z.ltb_ge in E.
+  destruct rest; cbn [fst snd]; split; try lia; exact I.
+Qed.
+
+Lemma pprof_guard_orig_unbounded : forall limit, (0 <= limit)%Z -> exists layers, (limit < snd (pprof_guard_orig 0 layers))%Z.
+Proof. intros limit H. exists [(limit + 1)%Z]. cbn. lia. Qed.
